@@ -301,53 +301,33 @@ func (c *Ctx) c02Padding(aw *ssa.Function) { c.paddingZeroed(aw, "R4") }
 func (c *Ctx) paddingZeroed(aw *ssa.Function, rule string) {
 	r := c.R
 	key := fname(aw) + ":padding-zeroed"
-	// a loop storing constant 0 into b'[i] for i in [0, Padding()) where b' = b[hl+len(payload):]
-	loops := flow.Loops(aw)
 	good, why := false, "the writer never zeroes the padding bytes: stale bytes of the pooled write buffer reach the wire"
-	flow.Instrs(aw, func(in ssa.Instruction) {
-		st, ok := in.(*ssa.Store)
-		if !ok || !isZeroConst(st.Val) {
-			return
-		}
-		ia, ok := st.Addr.(*ssa.IndexAddr)
-		if !ok {
-			return
-		}
-		l := flow.InnermostLoop(loops, st)
-		if l == nil {
-			return
-		}
-		// base = b[hl+len(payload):]
-		sl, ok := ia.X.(*ssa.Slice)
+	// region: b[hl+len(payload):]
+	isRegion := func(v ssa.Value) (bool, string) {
+		sl, ok := v.(*ssa.Slice)
 		if !ok || sl.High != nil {
-			why = "the zeroed region does not start right after the payload"
-			return
+			return false, "the zeroed region does not start right after the payload"
 		}
 		bo, ok := sl.Low.(*ssa.BinOp)
 		if !ok || bo.Op != token.ADD {
-			why = "the zeroed region does not start at header length + payload length"
-			return
+			return false, "the zeroed region does not start at header length + payload length"
 		}
 		_, isLen := builtinOf(bo.Y, "len")
 		if !isLen {
 			_, isLen = builtinOf(bo.X, "len")
 		}
-		// loop bound: i < Data.Padding()
-		bound := false
-		for _, g := range flow.Guards(st) {
-			rl, ok := condRel(g.If.Cond, g.Taken)
-			if ok && rl.op == token.LSS && rl.a == ia.Index {
-				if call, ok := rl.b.(*ssa.Call); ok && call.Call.IsInvoke() && call.Call.Method.Name() == "Padding" {
-					bound = true
-				}
-			}
+		if !isLen {
+			return false, "the zeroed region does not start at header length + payload length"
 		}
+		return true, ""
+	}
+	// extraGuards: conditions on in other than error-returning ones (Data == nil) outside loop l
+	extraGuards := func(in ssa.Instruction, l *flow.Loop) int {
 		extra := 0
-		for _, g := range flow.Guards(st) {
-			if l.Blocks[g.If.Block()] {
+		for _, g := range flow.Guards(in) {
+			if l != nil && l.Blocks[g.If.Block()] {
 				continue
 			}
-			// guards outside the loop are fine when their other edge is an error return (Data == nil)
 			other := 0
 			if g.Taken {
 				other = 1
@@ -356,14 +336,66 @@ func (c *Ctx) paddingZeroed(aw *ssa.Function, rule string) {
 				extra++
 			}
 		}
-		if isLen && bound && extra == 0 {
-			good = true
-		} else if !bound {
-			why = "the zeroing loop is not bounded by Data.Padding()"
-		} else {
-			why = "the padding is zeroed only conditionally"
+		return extra
+	}
+	// zeroLoop: fn stores 0 to base[i] for i < X.Padding() in a loop; reports (found, bounded, extra guards)
+	scan := func(fn *ssa.Function, baseOK func(ssa.Value) (bool, string), callExtra int) {
+		loops := flow.Loops(fn)
+		flow.Instrs(fn, func(in ssa.Instruction) {
+			st, ok := in.(*ssa.Store)
+			if !ok || !isZeroConst(st.Val) {
+				return
+			}
+			ia, ok := st.Addr.(*ssa.IndexAddr)
+			if !ok {
+				return
+			}
+			l := flow.InnermostLoop(loops, st)
+			if l == nil {
+				return
+			}
+			if ok, w := baseOK(ia.X); !ok {
+				if w != "" {
+					why = w
+				}
+				return
+			}
+			bound := false
+			for _, g := range flow.Guards(st) {
+				rl, ok := condRel(g.If.Cond, g.Taken)
+				if ok && rl.op == token.LSS && rl.a == ia.Index {
+					if call, ok := rl.b.(*ssa.Call); ok && call.Call.IsInvoke() && call.Call.Method.Name() == "Padding" {
+						bound = true
+					}
+				}
+			}
+			switch {
+			case bound && extraGuards(st, l)+callExtra == 0:
+				good = true
+			case !bound:
+				why = "the zeroing loop is not bounded by Data.Padding()"
+			default:
+				why = "the padding is zeroed only conditionally"
+			}
+		})
+	}
+	scan(aw, isRegion, 0)
+	if !good {
+		// the loop may live in a helper that is handed the region
+		for _, ci := range flow.CallInstrs(aw) {
+			h := flow.StaticCallee(ci)
+			if h == nil || h.Blocks == nil || !c.P.IsLibrary(h) {
+				continue
+			}
+			for i, a := range ci.Common().Args {
+				if ok, _ := isRegion(a); !ok || i >= len(h.Params) {
+					continue
+				}
+				hp := h.Params[i]
+				scan(h, func(v ssa.Value) (bool, string) { return v == ssa.Value(hp), "" }, extraGuards(ci, nil))
+			}
 		}
-	})
+	}
 	// the zeroing must be reached on every path after the payload copy
 	r.Check(good, rule, key, c.fpos(aw), "bytes [hl+len(payload), +Padding()) are stored as 0 in an unconditional loop", why)
 }
@@ -410,38 +442,7 @@ func (c *Ctx) c02LengthBookkeeping() {
 				}
 			}
 		}
-		var lenStore *ssa.Store
-		how := ""
-		flow.Instrs(f, func(in ssa.Instruction) {
-			st, ok := in.(*ssa.Store)
-			if !ok {
-				return
-			}
-			if tn, fld, _, ok := flow.FieldOf(st.Addr); !ok || tn != "Header" || fld != "MessageLength" {
-				return
-			}
-			v := flow.Peel(st.Val)
-			// m.Len()
-			if call, ok := v.(*ssa.Call); ok && flow.IsCallTo(call, pkgDiam, "Message", "Len") && flow.Dominates(avpStore, call) {
-				lenStore, how = st, "recomputed as m.Len() after the update"
-				return
-			}
-			// old + a.Len()
-			if bo, ok := v.(*ssa.BinOp); ok && bo.Op == token.ADD {
-				old, inc := bo.X, bo.Y
-				if tn, fld, _, ok := flow.FieldOf(flow.Peel(old)); ok && tn == "Header" && fld == "MessageLength" {
-					if call, ok := flow.Peel(inc).(*ssa.Call); ok && flow.IsCallTo(call, pkgDiam, "AVP", "Len") {
-						if added == nil || sameAVP(call.Call.Args[0], added) {
-							lenStore, how = st, "incremented by the added AVP's Len()"
-						} else {
-							how = "!incremented by the Len() of a different AVP than the one added"
-						}
-					} else {
-						how = "!incremented by something other than the added AVP's Len() (" + short(inc.String(), 40) + ")"
-					}
-				}
-			}
-		})
+		lenStore, how := c.lengthUpdateIn(f, avpStore, added, 0)
 		switch {
 		case lenStore == nil && strings.HasPrefix(how, "!"):
 			r.Fail("R6", key, c.pos(avpStore), "Header.MessageLength is "+how[1:]+": the header length no longer equals the serialised size")
@@ -449,7 +450,7 @@ func (c *Ctx) c02LengthBookkeeping() {
 			r.Fail("R6", key, c.pos(avpStore), "the function changes m.AVP without updating Header.MessageLength: the length kept in the header no longer equals the serialised size")
 		default:
 			// on every path from the AVP store to the exit
-			p := flow.PathAvoiding(f, avpStore, flow.IsReturn, func(in ssa.Instruction) bool { return in == ssa.Instruction(lenStore) })
+			p := flow.PathAvoiding(f, avpStore, flow.IsReturn, func(in ssa.Instruction) bool { return in == lenStore })
 			r.Check(p == nil, "R6", key, c.pos(lenStore), "MessageLength "+how+" on every path", "a path changes m.AVP and returns without updating Header.MessageLength", c.witness(p)...)
 		}
 	}
@@ -591,4 +592,75 @@ func (c *Ctx) c02Conversions() {
 	if n == 0 {
 		r.Undecided("R7", "role:pad-helper", "-", "no padding helper found")
 	}
+}
+
+// lengthUpdateIn: the instruction of f that brings Header.MessageLength up to date after the AVP list changed:
+// a store of m.Len() computed after the change, a store of MessageLength + added.Len(), or a call of a
+// package-local helper doing one of these for the AVP it is handed. how starts with "!" when an update exists
+// but is wrong.
+func (c *Ctx) lengthUpdateIn(f *ssa.Function, after ssa.Instruction, added ssa.Value, depth int) (ssa.Instruction, string) {
+	var at ssa.Instruction
+	how := ""
+	flow.Instrs(f, func(in ssa.Instruction) {
+		st, ok := in.(*ssa.Store)
+		if !ok {
+			return
+		}
+		if tn, fld, _, ok := flow.FieldOf(st.Addr); !ok || tn != "Header" || fld != "MessageLength" {
+			return
+		}
+		v := flow.Peel(st.Val)
+		// m.Len()
+		if call, ok := v.(*ssa.Call); ok && flow.IsCallTo(call, pkgDiam, "Message", "Len") && (after == nil || flow.Dominates(after, call)) {
+			at, how = st, "recomputed as m.Len() after the update"
+			return
+		}
+		// old + a.Len()
+		if bo, ok := v.(*ssa.BinOp); ok && bo.Op == token.ADD {
+			old, inc := bo.X, bo.Y
+			if tn, fld, _, ok := flow.FieldOf(flow.Peel(old)); ok && tn == "Header" && fld == "MessageLength" {
+				if call, ok := flow.Peel(inc).(*ssa.Call); ok && flow.IsCallTo(call, pkgDiam, "AVP", "Len") {
+					if added == nil || sameAVP(call.Call.Args[0], added) {
+						at, how = st, "incremented by the added AVP's Len()"
+					} else {
+						how = "!incremented by the Len() of a different AVP than the one added"
+					}
+				} else {
+					how = "!incremented by something other than the added AVP's Len() (" + short(inc.String(), 40) + ")"
+				}
+			}
+		}
+	})
+	if at != nil || depth > 1 {
+		return at, how
+	}
+	for _, ci := range flow.CallInstrs(f) {
+		h := flow.StaticCallee(ci)
+		if h == nil || h.Blocks == nil || !c.P.IsLibrary(h) || h.Signature.Recv() == nil || flow.RecvTypeName(h.Signature) != "Message" {
+			continue
+		}
+		if after != nil && !flow.Dominates(after, ci) {
+			continue
+		}
+		var hp ssa.Value
+		if added != nil {
+			for i, a := range ci.Common().Args {
+				if sameAVP(a, added) && i < len(h.Params) {
+					hp = h.Params[i]
+				}
+			}
+			if hp == nil {
+				continue
+			}
+		}
+		if hat, hhow := c.lengthUpdateIn(h, nil, hp, depth+1); hat != nil {
+			// the helper must do it on every path
+			if flow.PathAvoiding(h, nil, flow.IsReturn, func(in ssa.Instruction) bool { return in == hat }) == nil {
+				return ci, hhow + " (in " + h.Name() + ")"
+			}
+		} else if strings.HasPrefix(hhow, "!") {
+			how = hhow
+		}
+	}
+	return nil, how
 }
